@@ -56,6 +56,7 @@ pub fn type_of(e: &Expr, env: &VarEnv) -> Ty {
       Expr::ProdOf(..) => Ty::ProdU32DualU32,
       Expr::ProdFst(_) => Ty::U32,
       Expr::Cast(_, ty) => *ty,
+      Expr::LetBlock(_, init, _) => type_of(init, env),
       Expr::Cmp(..) | Expr::And(..) | Expr::Or(..) | Expr::Not(_) => Ty::Bool,
    }
 }
@@ -261,6 +262,12 @@ pub fn pe(e: &Expr, env: &VarEnv) -> String {
       Expr::ProdOf(a, b) => format!("::vglue::HProd::new({}, {})", pe(a, env), pe(b, env)),
       Expr::ProdFst(a) => format!("(({}).0.0.0)", pe(a, env)),
       Expr::Cast(a, ty) => format!("(({}) as {})", pe(a, env), ty.rust()),
+      Expr::LetBlock(x, init, body) => {
+         let ty = type_of(init, env);
+         let mut inner = env.clone();
+         inner.insert(x.clone(), VarInfo { ty, is_ref: false, unknown_ref: false });
+         format!("{{ let {x} = {}; {} }}", pe(init, env), pe(body, &inner))
+      },
       Expr::Cmp(op, a, b) => {
          let o = match op {
             CmpOp::Eq => "==",
